@@ -86,7 +86,7 @@ Definition must_refuse (d : sdir) (addr : Z) : bool :=
   | SAscii _ cs => match chunks_bytes cs with Some _ => false | None => true end
   | SBlkb n | SBlkw n => (n <? 0) || (65536 <=? n)
   | SEven | SOdd => false
-  | SAlign c => c <=? 0
+  | SAlign c => (c <=? 0) || (65536 <=? c)   (* a count is a 16-bit quantity, as for .blkb / .blkw; 0 aligns to nothing *)
   end.
 
 (* when it need not be refused: is [bs] exactly the image the directive states? *)
